@@ -11,7 +11,7 @@ METHODS = ["EulerSolver", "RK4Solver", "ABAs5o6HSolver", "RK45CKSolver", "DOPRI4
 
 
 def ops_fn(cfg, hist):
-    ops = [("int",)] + [("intT", T) for T in lc.LATTICE]
+    ops = [("int",)] + [("intT", T) for T in lc.LATTICE] + [("intF", 1, 3), ("intF", -5, 7)]
     if not any(o[0] == "dt" for o in hist):
         ops += [("dt", 0.125), ("dt", 4.0)]
     return ops
@@ -31,7 +31,7 @@ def step(cfg, hist):
     r.n = 1
     case = dict(cfg, hist=[list(o) for o in hist])
     name = cfg["method"]
-    if obs is not None and obs["op"][0] in ("int", "intT"):
+    if obs is not None and obs["op"][0] in ("int", "intT", "intF"):
         if obs["raised"] == "budget":
             r.v("C03/runaway/%s" % name, "integration to a finite target terminates", case,
                 observed=dict(steps=obs["steps"], t_last=float(a.t[-1]), target=obs["target"], rows=len(a)), expected="about %d steps" % driver.min_steps(obs["t_before"], obs["target"], obs["dt_before"] or 1))
@@ -42,7 +42,7 @@ def step(cfg, hist):
             r.add("raised"); r.out(("raised", name, lc.family(name)))
             r.ret = None
             return r
-        ok = driver.segment_invariants(r, "C03", case, a.t, a.y, obs["i0"], obs["i1"], obs["target"], t0_first, y0, dtype)
+        ok = driver.segment_invariants(r, "C03", case, a.t, a.y, obs["i0"], obs["i1"], obs["target_exact"], t0_first, y0, dtype)
         if ok and obs["i1"] > obs["i0"] and not a.success:
             r.v("C03/status/%s" % name, "a completed integration reports success", case, observed=a.integration_status, expected="success")
         if ok and cfg["rhs"] == "const":
@@ -162,7 +162,7 @@ def configs(ctx):
 
 def run(ctx):
     depth = 2 if ctx.quick else 3
-    ctx.rule = ("E1 breadth-first search over histories of {integrate(), integrate(T) for T in 7-point lattice, dt=0.125, dt=4} to depth %d (on a sub-lattice of 12 spans x 3 dt; one less elsewhere) from every "
+    ctx.rule = ("E1 breadth-first search over histories of {integrate(), integrate(T) for T in 7-point lattice, integrate(1/3), integrate(-5/7) (targets not representable in a lower precision), dt=0.125, dt=4} to depth %d (on a sub-lattice of 12 spans x 3 dt; one less elsewhere) from every "
                 "configuration (7 methods x 42 signed spans x 5 initial dt incl. oversized and negative x dtypes x {y'=const, oscillator}); states are "
                 "deduplicated by a canonical hash of all carried state; every transition executes the real OdeSystem and is checked against the "
                 "reference direction/target model; plus buffer-growth cells; distinct = distinct (method, dtype, direction, sign(t), sign(target), #rows) classes" % depth)
